@@ -154,6 +154,21 @@ fn main() {
     io::Println(acc);
 }
 """,
+    "wasm_array_growth": """import "std/io";
+fn main() {
+    let d: []i64 = [];
+    let i: i32 = 0;
+    while i < 50000 {
+        append(&'d, i as i64);
+        i = i + 1;
+    }
+    let s: i64 = 0;
+    for j in 0..49999 {
+        s = s + d[j];
+    }
+    io::Println(s, len(d));
+}
+""",
 }
 
 
